@@ -77,3 +77,11 @@ Theorem C11_check_then_act_all_paths : forall top prog E, SplitCs.sp_all_ok top 
   SplitCsSound.sp_path f 0 (SplitCs.s0 (RaceCfg.entry_of top E (N.of_nat i))) p = [].
 Proof. exact SplitCsSound.sp_all_sound. Qed.
 Print Assumptions C11_check_then_act_all_paths.
+
+(* the table of classes a call may acquire (used for the edges "c1 held while calling something that takes c2") is
+   closed under calls: whatever a function reachable through synchronous calls locks is in the caller's entry *)
+Theorem C11_acquisition_table_closed : forall prog A, acq_closed prog A = true ->
+  forall g k, calls prog g k -> forall fk c, nth_error prog (N.to_nat k) = Some fk -> RaceCfg.cmem c (direct_acq fk) = true ->
+  RaceCfg.cmem c (nth (N.to_nat g) A []) = true.
+Proof. exact acq_closed_sound. Qed.
+Print Assumptions C11_acquisition_table_closed.
